@@ -68,11 +68,14 @@ class RandomStateService(
             randomly. See the numpy documentation for numpy.random.RandomState
             what that means.
         """
-        self._seed = int_cast(
+        seed = int_cast(
             seed,
             'The seed argument must be None or cast-able to type int!',
             allow_None=True)
-        self.random.seed(self._seed)
+        # Seed the generator first: numpy refuses seeds outside [0, 2**32).
+        # The seed property must change only if the generator was reseeded.
+        self.random.seed(seed)
+        self._seed = seed
 
 
 class RandomChoice(
